@@ -114,6 +114,33 @@ static void pair_ops(Ctx &c, const uint64_t a[3], const uint64_t b[3], uint64_t 
         Goldilocks3::mulScalar(R, A, dec); CHK("mulScalar", "decimal-string", orc::scal3(oa, sv));
         c.rep.cls("forms:mulScalar_string");
     }
+    if ((rng.next() & 31) == 0)
+    {
+        // decimal strings of integers beyond 64 bits (20..39 digits), the neighbourhood of 2^64 and of 10^19 / 10^20, leading zeros
+        typedef unsigned __int128 u128;
+        static const u128 two64 = (u128)1 << 64;
+        u128 ten19 = 10000000000000000000ULL, ten20 = ten19 * 10;
+        u128 v;
+        switch (rng.below(6))
+        {
+        case 0: v = two64 - 2 + rng.below(5); break;
+        case 1: v = ten20 - 1 - rng.below(3); break;
+        case 2: v = ten19 - 2 + rng.below(5); break;
+        case 3: v = two64 + s; break;
+        case 4: v = (u128)s * rng.next() + rng.below(1000); break;
+        default: v = ten20 + rng.below(1ULL << 40); break;
+        }
+        std::string dec;
+        for (u128 q = v; q; q /= 10) dec.insert(dec.begin(), (char)('0' + (int)(q % 10)));
+        if (dec.empty()) dec = "0";
+        if (rng.below(4) == 0) dec = std::string(1 + rng.below(3), '0') + dec;
+        bool negv = rng.below(3) == 0;
+        if (negv) dec = "-" + dec;
+        uint64_t sv = (uint64_t)(v % (u128)orc::PR);
+        if (negv) sv = orc::neg(sv);
+        Goldilocks3::mulScalar(R, A, dec); CHK("mulScalar", "decimal-string-beyond-64-bits", orc::scal3(oa, sv));
+        c.rep.cls("forms:mulScalar_string_beyond_64_bits");
+    }
     // copy / zero / one / conversions
     {
         Goldilocks3::copy(R, A);
